@@ -209,6 +209,9 @@ impl World {
             let mut r = numeral_row(&w, n_ids, &mut rng, pos);
             if rng.chance(1, 4) { r.reading = rand_word(&mut rng, &['ア', 'カ'], 3); }
             if rng.chance(1, 5) { r.norm = rand_word(&mut rng, &KATA[..3], 3); }
+            // a headword (dictionary-side surface) that differs from the key, also in length and script:
+            // the merged token's range must come from the merged ranges, never from the headword
+            if rng.chance(1, 3) { r.headword = rng.pick(&["上", "ｋｉｌｏ", "アイウエオ", "ア", "kilo", "𠮷野"]).to_string(); }
             rows.push(r);
         }
         if rng.chance(1, 3) { rows.push(numeral_row("ァ", n_ids, &mut rng, NOUN)); }
@@ -466,7 +469,7 @@ fn tok_diff(a: &Tok, b: &Tok) -> Vec<&'static str> {
 
 /// The property itself, on the implementation's observations only.
 /// Returns (key, description) of the first violated clause.
-fn oracle(base: &Obs, with: &Obs, stack: &[Plug], pos_ids: &[u16], stats: &mut Vec<String>) -> Option<(String, String)> {
+fn oracle(base: &Obs, with: &Obs, stack: &[Plug], pos_ids: &[u16], stats: &mut Vec<String>, mode_c: bool) -> Option<(String, String)> {
     let (n0, n1) = (&base.nodes, &with.nodes);
     let (t0, t1) = (&base.toks, &with.toks);
     if n0.len() != t0.len() || n1.len() != t1.len() {
@@ -497,15 +500,17 @@ fn oracle(base: &Obs, with: &Obs, stack: &[Plug], pos_ids: &[u16], stats: &mut V
                 return Some(("c14:merged-range".into(), format!("merged token {} reports {}..{}, parts span {}..{}", k, tm.begin, tm.end, blk[0].begin, blk[blk.len() - 1].end)));
             }
             // clause 3: dictionary-side surface = concatenation
+            // (in modes A/B the un-rewritten tokens under a merged token are split UNITS, whose dictionary-side
+            // surfaces and POS are not those of the merged C-mode tokens: clauses 3 and 4 are judged in mode C)
             let cat: String = blk.iter().map(|t| t.wi_surface.as_str()).collect();
-            if tm.wi_surface != cat {
+            if mode_c && tm.wi_surface != cat {
                 return Some(("c14:merged-surface".into(), format!("merged token {} has dictionary-side surface {:?}, concatenation of its parts is {:?}", k, tm.wi_surface, cat)));
             }
             // clause 4: prescribed part of speech
             let numeric_ok = has_numeric && tm.pos_id == num_pos && blk[0].pos_id == num_pos;
             let kat_ok = kat_pos.contains(&tm.pos_id);
             let ok = if kat_pos.is_empty() { numeric_ok } else if !has_numeric { kat_ok } else { numeric_ok || kat_ok };
-            if !ok {
+            if mode_c && !ok {
                 return Some(("c14:merged-pos".into(), format!("merged token {} ({:?}) has POS id {}; first part has {}, numeral POS is {}, configured OOV POS {:?}", k, tm.wi_surface, tm.pos_id, blk[0].pos_id, num_pos, kat_pos)));
             }
         } else {
@@ -621,7 +626,7 @@ differs from the un-rewritten path; distinct by payload".into();
                 run.bump(if changed { "outcome:rewritten" } else { "outcome:unchanged" });
                 run.case(idx, "stack", &payload, &format!("ok {}", wire_path(&with.nodes)), changed);
                 let mut stats = vec![];
-                let verdict = oracle(&base, &with, &stack, &pos_ids, &mut stats);
+                let verdict = oracle(&base, &with, &stack, &pos_ids, &mut stats, true);
                 for s in stats { run.bump(&s); }
                 if with.cat != base.cat {
                     run.fail(idx, "c14:input-differs", "the class masks of the modified text differ between the two configurations");
@@ -635,7 +640,7 @@ differs from the un-rewritten path; distinct by payload".into();
                     for mode in [Mode::A, Mode::B] {
                         if let (Ana::Ok(b2), Ana::Ok(w2)) = (analyse(&dics[0], &text, mode), analyse(&dics[stack.len()], &text, mode)) {
                             let mut st2 = vec![];
-                            if let Some((key, what)) = oracle(&b2, &w2, &stack, &pos_ids, &mut st2) {
+                            if let Some((key, what)) = oracle(&b2, &w2, &stack, &pos_ids, &mut st2, false) {
                                 let key = format!("{}@{:?}", key, mode);
                                 run.bump(&format!("oracle:{}", key));
                                 run.fail(idx, &key, &format!("mode {:?} text {:?} [{}] stack {:?}: {}", mode, text, textkey, stack, what));
